@@ -68,7 +68,9 @@ def run(tier, seed):
                        "a lot-priced posting with a cost is valued at its basis cost (lot price x quantity) when price and cost share a commodity (xact.cc 301-327)",
                        "value-expression annotations, fixed (@ =) and virtual ((@)) costs and scaling commodities are outside the model and the generators",
                        "exactly-half-a-display-unit residuals are not compared (MPFR tie)"]
-    if not ctx.prepare():
+    # the model-coherence layer (the four independently written finalize fragments, the three per-account
+    # sum fragments and the display-zero tests agree on their common domain) rides on this check
+    if not ctx.prepare(extra_modules=["LedgerModel.Props.Coherence"]):
         return ctx.finish()
     search = bool(ctx.ties_broken)
     if search:
